@@ -638,6 +638,9 @@ def centre_pixel_sizes(check, prog):
         # in pixel units), and is left alone when the pixels are square
         from hpstatic.logic import resolve
         from hpstatic.poly import Canon
+        import operator
+        OPS_ = {'<': operator.lt, '<=': operator.le, '>': operator.gt,
+                '>=': operator.ge, '==': operator.eq, '!=': operator.ne}
         canon = Canon()
 
         def under(square):
@@ -645,9 +648,15 @@ def centre_pixel_sizes(check, prog):
                 if t[0] == 'call' and t[1] in ('numpy.isclose', 'numpy.allclose',
                                                'math.isclose'):
                     return square
-                if t[0] == 'cmp' and any(x[0] == 'call' and x[1] == 'len'
-                                         for x in (t[2], t[3])):
-                    return True           # an image has more than one row / column
+                if t[0] == 'cmp' and t[1] in OPS_ and any(
+                        x[0] == 'call' and x[1] == 'len' for x in (t[2], t[3])):
+                    # an image has many rows and columns: evaluate the test
+                    val = lambda x: 100 if x[0] == 'call' and x[1] == 'len' else (
+                        x[1] if x[0] == 'num' else None)
+                    a_, b_ = val(t[2]), val(t[3])
+                    if a_ is None or b_ is None:
+                        return None
+                    return OPS_[t[1]](a_, b_)
                 return None
             return [resolve(a, hyp) for a in args]
         sq, ns = under(True), under(False)
